@@ -193,8 +193,8 @@ def run_case(case, ctx):
         ctx.sample(common.describe(case, {"inputs": len(inputs), "parsed": parsed}), "aligned" if case["cfg"]["align"] else "packed")
 
 
-CUSTOM_DEF = "struct In {{ uint8 k; offbyone b; }};\nstruct Root {{ uint8 a; {m0} offbyone c; {m1} uint16 d[2]; {m2} uint8 e; }};\n"
-CUSTOM_MEMBERS = ["", "offbyone b2[2];", "In s;", "In sa[2];", "offbyone m[2][2];", "uint8 n; offbyone dyn[n];", "offbyone *p;", "uint8 f0 : 3; uint8 f1 : 5;"]
+CUSTOM_DEF = "struct In {{ uint8 k; offbyone b; }};\nstruct Root {{ uint8 a; {m0} uint32 c; {m1} uint16 d[2]; {m2} uint8 e; }};\n"
+CUSTOM_MEMBERS = ["", "offbyone sc;", "offbyone b2[2];", "offbyone b2[2];", "In s;", "In sa[2];", "offbyone m[2][2];", "uint8 n; offbyone dyn[n];", "offbyone *p;", "uint8 f0 : 3; uint8 f1 : 5;"]
 
 
 @st.composite
@@ -222,7 +222,7 @@ def _run_custom(case, ctx):
 
     members = []
     for i, mm in enumerate(case["members"]):
-        for nm in ("b2", "s", "sa", "m", "n", "dyn", "p", "f0", "f1"):
+        for nm in ("sc", "b2", "s", "sa", "m", "n", "dyn", "p", "f0", "f1"):
             mm = mm.replace(f" {nm}", f" {nm}_{i}").replace(f"[{nm}]", f"[{nm}_{i}]").replace(f"*{nm}", f"*{nm}_{i}")
         members.append(mm)
     text = CUSTOM_DEF.format(m0=members[0], m1=members[1], m2=members[2])
